@@ -15,6 +15,7 @@ GENERATORS = [
     ("C16", "slice_agent_loop.py", ["{S}/session.rs", "{H}/agent_loop_slice.rs", "{H}/request_gate_slice.rs"]),
     ("C19", "slice_agent_loop.py", ["{S}/session.rs", "{H}/agent_loop_slice.rs", "{H}/request_gate_slice.rs"]),
     ("C19", "slice_doctor.py", ["{S}/server.rs", "{H}/doctor_summary_slice.rs"]),
+    ("C14", "slice_checkpoint_files.py", ["{R}/crates/rip-tools/src/runtime.rs", "{H}/checkpoint_files_slice.rs"]),
 ]
 
 
